@@ -62,6 +62,10 @@ ANCHORS = [
     ("lib/sqlalchemy/dialects/sqlite/base.py", "SQLiteDialect._find_cols_in_sig"),
     ("lib/sqlalchemy/dialects/sqlite/base.py", "SQLiteDialect._resolve_type_affinity"),
     ("lib/sqlalchemy/dialects/sqlite/base.py", "SQLiteDialect._get_column_info"),
+    ("lib/sqlalchemy/dialects/sqlite/base.py", "SQLiteDialect.get_columns"),
+    ("lib/sqlalchemy/dialects/sqlite/base.py", "SQLiteDialect.get_indexes"),
+    ("lib/sqlalchemy/dialects/sqlite/base.py", "SQLiteDDLCompiler.get_column_specification"),
+    ("lib/sqlalchemy/dialects/sqlite/base.py", "SQLiteDDLCompiler.visit_create_index"),
     ("lib/sqlalchemy/sql/compiler.py", "DDLCompiler.visit_unique_constraint"),
     ("lib/sqlalchemy/sql/compiler.py", "DDLCompiler.define_constraint_preamble"),
     ("lib/sqlalchemy/sql/compiler.py", "DDLCompiler.define_unique_body"),
@@ -96,13 +100,65 @@ def _patterns(repo=None):
         if isinstance(node, ast.Assign) and len(node.targets) == 1 and isinstance(node.targets[0], ast.Name):
             if node.targets[0].id in ("UNIQUE_PATTERN", "INLINE_UNIQUE_PATTERN"):
                 out[node.targets[0].id] = ast.literal_eval(node.value)
+            if node.targets[0].id == "partial_pred_re" and isinstance(node.value, ast.Call):
+                out["PARTIAL"] = ast.literal_eval(node.value.args[0])
         if isinstance(node, ast.FunctionDef) and node.name == "_find_cols_in_sig":
             for c in ast.walk(node):
                 if isinstance(c, ast.Call) and getattr(c.func, "attr", "") == "finditer":
                     out["COLS"] = ast.literal_eval(c.args[0])
-    if set(out) != {"UNIQUE_PATTERN", "INLINE_UNIQUE_PATTERN", "COLS"}:
+    if set(out) != {"UNIQUE_PATTERN", "INLINE_UNIQUE_PATTERN", "COLS", "PARTIAL"}:
         raise RuntimeError("cannot find the reflection patterns in the source: %s" % sorted(out))
     return out
+
+
+def _fn(tree, cls, name):
+    for node in ast.walk(tree):
+        if isinstance(node, ast.ClassDef) and node.name == cls:
+            for f in node.body:
+                if isinstance(f, ast.FunctionDef) and f.name == name:
+                    return f
+    raise RuntimeError("cannot find %s.%s" % (cls, name))
+
+
+def _bool_expr(e):
+    """T2: the expression get_columns assigns to `nullable`, over row[3] (notnull) and primary_key -> Gallina"""
+    if isinstance(e, ast.UnaryOp) and isinstance(e.op, ast.Not):
+        return "negb (%s)" % _bool_expr(e.operand)
+    if isinstance(e, ast.BoolOp):
+        op = " && " if isinstance(e.op, ast.And) else " || "
+        return "(" + op.join(_bool_expr(v) for v in e.values) + ")"
+    if isinstance(e, ast.Call) and isinstance(e.func, ast.Name) and e.func.id == "bool" and len(e.args) == 1:
+        return _bool_expr(e.args[0])
+    if isinstance(e, ast.Name) and e.id == "primary_key":
+        return "pk"
+    if isinstance(e, ast.Subscript) and isinstance(e.value, ast.Name) and e.value.id == "row" and isinstance(e.slice, ast.Constant):
+        if e.slice.value == 3:
+            return "nn"
+        if e.slice.value == 5:
+            return "pk"
+    if isinstance(e, ast.Constant) and isinstance(e.value, bool):
+        return "true" if e.value else "false"
+    raise RuntimeError("nullable rule: expression not understood: %s" % ast.unparse(e))
+
+
+def source_rules(repo):
+    """(Gallina term of the nullable rule, is the partial-index lookup query schema-qualified?)"""
+    with open(os.path.join(repo, "lib/sqlalchemy/dialects/sqlite/base.py")) as f:
+        tree = ast.parse(f.read())
+    gc = _fn(tree, "SQLiteDialect", "get_columns")
+    rules = [n.value for n in ast.walk(gc) if isinstance(n, ast.Assign) and len(n.targets) == 1
+             and isinstance(n.targets[0], ast.Name) and n.targets[0].id == "nullable"]
+    if len(rules) != 1:
+        raise RuntimeError("get_columns: expected exactly one assignment to `nullable`, found %d" % len(rules))
+    gi = _fn(tree, "SQLiteDialect", "get_indexes")
+    queries = []
+    for n in ast.walk(gi):
+        if isinstance(n, ast.Constant) and isinstance(n.value, str) and "sqlite_master" in n.value:
+            queries.append(n.value)
+    if not queries:
+        raise RuntimeError("get_indexes: no query against sqlite_master found")
+    qualified = all("%(schema)ssqlite_master" in q for q in queries)
+    return _bool_expr(rules[0]), qualified
 
 
 PROBE_ARGS = [7, 8, 9, 11, 12, 13]
@@ -173,6 +229,7 @@ def translate(repo, outdir):
     f = implcall.call("specs.c15", "facts")
     _TABS["facts"] = f
     _patterns(repo)
+    rule, qualified = source_rules(repo)
     src = (
         "(* generated on every run by specs/c15.py from the current source / the live dialect - do not edit *)\n"
         "From Coq Require Import List NArith Bool.\nImport ListNotations.\n"
@@ -192,12 +249,27 @@ def translate(repo, outdir):
         + "  a_integer := %d; a_text := %d; a_null := %d; a_real := %d; a_numeric := %d;\n" % tuple(f["fallbacks"])
         + "  a_accepts := [%s];\n" % "; ".join("(%d, %d%%nat)" % (c, n) for c, n in f["accepts"])
         + "  a_render := [\n    %s] |}.\n\n" % ";\n    ".join("(%d, %d%%nat, (%s, %d%%nat))" % (c, n, _cs(nm), k) for c, n, nm, k in f["render"])
+        + "(* the expression get_columns assigns to `nullable` (nn = PRAGMA notnull, pk = part of the primary key) *)\n"
+        + "Definition gen_nullable_rule (nn pk : bool) : bool := %s.\n" % rule
+        + "(* does the partial-index lookup of get_indexes name the table's schema? *)\n"
+        + "Definition gen_index_query_qualified : bool := %s.\n\n" % ("true" if qualified else "false")
         + "Definition run_case := run_with t_sqlite gen_aff.\n"
     )
     src2 = (
         "(* generated on every run - per-run obligations on the regenerated tables *)\n"
         "From Coq Require Import List NArith Bool.\nImport ListNotations.\n"
-        "From SAV.sql Require Import Ident Reflect ReflectProofs ReflectAffinity ReflectTheorems.\nRequire Import Gen.Gen_C15.\nOpen Scope N_scope.\n\n"
+        "From SAV.sql Require Import Ident Reflect ReflectProofs ReflectAffinity ReflectTheorems ReflectIndex.\nRequire Import Gen.Gen_C15.\nOpen Scope N_scope.\n\n"
+        "Lemma gen_nullable_rule_ok : forall nn pk, gen_nullable_rule nn pk = negb nn.\nProof. intros [] []; reflexivity. Qed.\n"
+        "Lemma gen_index_query_qualified_ok : gen_index_query_qualified = true.\nProof. reflexivity. Qed.\n"
+        "Theorem gen_nullable_roundtrip : forall c, reflect_nullable gen_nullable_rule c = c_nullable c.\n"
+        "Proof. exact (nullable_roundtrip gen_nullable_rule gen_nullable_rule_ok). Qed.\n"
+        "Theorem gen_reflect_where_roundtrip : forall ms schema m iname unique qname qtable qcols w,\n"
+        "  assoc_s ms (query_schema gen_index_query_qualified schema) = Some m ->\n"
+        "  assoc_s m iname = Some (render_index unique qname qtable qcols (Some w)) -> pred_ok w = true ->\n"
+        "  iclean (render_index_head unique qname qtable qcols) (rpar :: [sp] ++ kwWHERE ++ [sp] ++ w) = true ->\n"
+        "  reflect_where gen_index_query_qualified ms schema iname = Some w.\n"
+        "Proof. rewrite gen_index_query_qualified_ok. intros ms schema m iname unique qname qtable qcols w Hm Hi Hw Hc.\n"
+        "  exact (reflect_where_roundtrip ms schema m iname unique qname qtable qcols (Some w) Hm Hi (conj Hw Hc)). Qed.\n"
         "Lemma gen_prep_dq : prep_dq t_sqlite = true.\nProof. vm_compute; reflexivity. Qed.\n"
         "Lemma gen_aff_ok : aff_ok gen_aff = true.\nProof. vm_compute; reflexivity. Qed.\n"
         "(* the property theorems instantiated with the tables the code has NOW *)\n"
@@ -336,8 +408,29 @@ def gen_cases(rng, tier):
         zero = bool(m) and any(int(x) == 0 for x in re.findall(r"\d+", m.group(1)))
         # a zero argument is falsy and some type compilers then leave it out: outside the model, oracle only
         cases.append({"in": [3, S(s)], "kind": "affinity-zero" if zero else "affinity", "model": not zero})
+    for s in _index_texts(rng, tier):
+        cases.append({"in": [4, S(s)], "kind": "ix-where"})
     cases += _table_cases(rng, tier)
     return cases
+
+
+def _index_texts(rng, tier):
+    toks = [")", " ", "  ", "\n", "\t", "where", "WHERE", "Where", "x > 0", "(", "a", ") where b", "CREATE INDEX i ON t (", "wher", "IS NOT NULL"]
+    out = []
+    import itertools
+
+    for n in range(1, 4):
+        for tup in itertools.product([")", " ", "\n", "where", "x", "("], repeat=n):
+            if ")" in tup and "where" in tup:
+                out.append("".join(tup))
+    for _ in range(150 if tier == "quick" else 2000):
+        out.append("".join(rng.choice(toks) for _ in range(rng.randint(2, 9))))
+    for _ in range(150 if tier == "quick" else 2000):
+        q = lambda x: rng.choice(['"%s"' % x.replace('"', '""'), x])
+        cols = ", ".join(q(c) for c in rng.sample(NAMEPOOL, rng.randint(1, 2)))
+        pred = rng.choice(["", " WHERE x > 0", " WHERE \"a b\" IS NOT NULL", " where (x > 0) and y", "\nWHERE x", " WHERE  x\ny", " WHERE "])
+        out.append("CREATE %sINDEX %s ON %s (%s)%s" % (rng.choice(["", "UNIQUE "]), q(rng.choice(NAMEPOOL)), q(rng.choice(NAMEPOOL)), cols, pred))
+    return out
 
 
 def nontrivial(c):
@@ -351,6 +444,8 @@ def nontrivial(c):
     if t[0] == 3:
         s = unS(t[1])
         return "(" in s or " " in s
+    if t[0] == 4:
+        return "where" in unS(t[1]).lower()
     return bool(c.get("tbl", {}).get("uq") or c.get("tbl", {}).get("fk") or c.get("tbl", {}).get("ix"))
 
 
@@ -365,6 +460,7 @@ def _rx():
         p = _patterns()
         _RX["uq"] = re.compile(p["UNIQUE_PATTERN"], re.I)
         _RX["inline"] = re.compile(p["INLINE_UNIQUE_PATTERN"], re.I)
+        _RX["partial"] = re.compile(p["PARTIAL"], re.I)
     return _RX
 
 
@@ -467,6 +563,9 @@ def impl(c):
             except Exception:
                 txt2 = []
         return [out[0], [S(txt), _class_index(ty2), txt2]]
+    if t[0] == 4:
+        m = _rx()["partial"].search(unS(t[1]))
+        return [] if m is None else [S(m.group(1))]
     return _table_impl(c)
 
 
@@ -523,8 +622,10 @@ def _table_cases(rng, tier):
             pk = [rng.choice(names)]
         elif pkmode == "two" and ncol >= 2:
             pk = rng.sample(names, 2)
+        # primary key members keep their explicit nullability: SQLAlchemy then omits NOT NULL and SQLite
+        # really accepts NULL there (unless the column is the rowid alias)
         for c in cols:
-            if c["n"] in pk:
+            if c["n"] in pk and rng.random() < 0.5:
                 c["null"] = False
         other = pool[ncol:]
         tbl = {"name": other.pop() if awkward and rng.random() < 0.3 else "t%d" % (i % 7), "cols": cols, "pk": pk,
@@ -536,7 +637,10 @@ def _table_cases(rng, tier):
             tbl["uq"].append([other.pop() if rng.random() < 0.6 else None, cc])
         for k in range(rng.choice([0, 0, 1, 2])):
             cc = rng.sample(names, rng.randint(1, min(2, ncol)))
-            tbl["ix"].append(["ix%d_%s" % (k, other.pop() if awkward and rng.random() < 0.4 else "n"), cc, rng.random() < 0.3])
+            wh = None
+            if rng.random() < 0.5:
+                wh = [rng.choice(["gt", "notnull", "and"]), rng.choice(names), rng.choice(names)]
+            tbl["ix"].append(["ix%d_%s" % (k, other.pop() if awkward and rng.random() < 0.4 else "n"), cc, rng.random() < 0.4, wh])
         parent = {"name": other.pop() if awkward and rng.random() < 0.3 else "parent", "pk": ["id"] if rng.random() < 0.7 else ["p1", other.pop() if awkward else "p2"]}
         if parent["name"] == tbl["name"]:
             parent["name"] = "parent"
@@ -550,7 +654,21 @@ def _table_cases(rng, tier):
             tbl["fk"].append({"name": other.pop() if rng.random() < 0.6 else None, "cols": cc, "ondelete": rng.choice(ACTIONS),
                               "onupdate": rng.choice(ACTIONS), "deferrable": rng.choice([None, None, True, False]),
                               "initially": rng.choice([None, None, "DEFERRED", "IMMEDIATE"])})
-        cases.append({"in": [9, i], "kind": "table-awkward" if awkward else "table", "model": False, "tbl": tbl})
+        tbl["schema"] = rng.choice([None, None, "aux"])
+        rows = []
+        for r in range(5):
+            row = []
+            for c in cols:
+                if c["null"] and rng.random() < 0.35:
+                    row.append(None)
+                elif c["n"] in pk:
+                    row.append(r if rng.random() < 0.8 else 0)
+                else:
+                    row.append(rng.choice([0, 1, -1, "a", "b"]))
+            rows.append(row)
+        tbl["rows"] = rows
+        cases.append({"in": [9, i], "kind": ("table-awkward" if awkward else "table") + ("-attached" if tbl["schema"] else ""),
+                      "model": False, "tbl": tbl})
     return cases
 
 
@@ -572,7 +690,8 @@ def _build(tbl, md):
     import sqlalchemy as sa
 
     p = tbl["parent"]
-    pt = sa.Table(p["name"], md, *[sa.Column(c, sa.Integer, primary_key=True) for c in p["pk"]])
+    sch = tbl.get("schema")
+    pt = sa.Table(p["name"], md, *[sa.Column(c, sa.Integer, primary_key=True) for c in p["pk"]], schema=sch)
     cols = []
     for c in tbl["cols"]:
         ty = getattr(sa, c["t"][0])(*c["t"][1:])
@@ -587,29 +706,57 @@ def _build(tbl, md):
     for f in tbl["fk"]:
         extra.append(sa.ForeignKeyConstraint(f["cols"], [pt.c[x] for x in p["pk"]], name=f["name"], ondelete=f["ondelete"], onupdate=f["onupdate"],
                                              deferrable=f["deferrable"], initially=f["initially"]))
-    t = sa.Table(tbl["name"], md, *(cols + extra))
-    for n, cc, u in tbl["ix"]:
-        sa.Index(n, *[t.c[x] for x in cc], unique=u)
+    t = sa.Table(tbl["name"], md, *(cols + extra), schema=sch)
+    for ix in tbl["ix"]:
+        n, cc, u = ix[:3]
+        wh = ix[3] if len(ix) > 3 else None
+        kw = {}
+        if wh:
+            a, b = t.c[wh[1]], t.c[wh[2]]
+            kw["sqlite_where"] = {"gt": a > 0, "notnull": a.is_not(None), "and": sa.and_(a > 0, b.is_not(None))}[wh[0]]
+        sa.Index(n, *[t.c[x] for x in cc], unique=u, **kw)
     return pt, t
 
 
-def _snapshot(insp, name, dialect):
+def _engine():
+    import sqlalchemy as sa
+
+    e = sa.create_engine("sqlite://")
+
+    @sa.event.listens_for(e, "connect")
+    def attach(dbapi_conn, rec):
+        dbapi_conn.execute("ATTACH DATABASE ':memory:' AS aux")
+
+    return e
+
+
+def _ws(x):
+    return None if x is None else " ".join(str(x).split())
+
+
+def _snapshot(insp, name, dialect, schema=None):
     def ty(t):
         try:
             return dialect.type_compiler_instance.process(t)
         except Exception as e:
             return "<%s>" % type(e).__name__
 
-    cols = insp.get_columns(name)
-    fks = insp.get_foreign_keys(name)
+    cols = insp.get_columns(name, schema=schema)
+    fks = insp.get_foreign_keys(name, schema=schema)
+    pkc = insp.get_pk_constraint(name, schema=schema)
+
+    def where(i):
+        w = i.get("dialect_options", {}).get("sqlite_where")
+        return None if w is None else _ws(getattr(w, "text", w))
+
     return {
         "cols": [[c["name"], type(c["type"]).__name__, ty(c["type"]), bool(c["nullable"]), c["default"]] for c in cols],
-        "pk": [insp.get_pk_constraint(name)["constrained_columns"], insp.get_pk_constraint(name)["name"]],
+        "pk": [pkc["constrained_columns"], pkc["name"]],
         "fk": sorted([[f["name"], f["constrained_columns"], f["referred_table"], f["referred_columns"],
                        f["options"].get("ondelete"), f["options"].get("onupdate"), f["options"].get("deferrable"), f["options"].get("initially")] for f in fks],
                      key=lambda x: json.dumps(x)),
-        "uq": sorted([[u["name"], u["column_names"]] for u in insp.get_unique_constraints(name)], key=lambda x: json.dumps(x)),
-        "ix": sorted([[i["name"], i["column_names"], bool(i["unique"])] for i in insp.get_indexes(name)], key=lambda x: json.dumps(x)),
+        "uq": sorted([[u["name"], u["column_names"]] for u in insp.get_unique_constraints(name, schema=schema)], key=lambda x: json.dumps(x)),
+        "ix": sorted([[i["name"], i["column_names"], bool(i["unique"]), where(i)] for i in insp.get_indexes(name, schema=schema)], key=lambda x: json.dumps(x)),
     }
 
 
@@ -619,11 +766,12 @@ def _table_impl(c):
     import sqlalchemy as sa
 
     tbl = c["tbl"]
-    out = {"created": None, "r1": None, "r2": None, "err": None, "bare": {}}
+    out = {"created": None, "r1": None, "r2": None, "err": None, "bare": {}, "probe": None}
+    sch = tbl.get("schema")
     with warnings.catch_warnings():
         warnings.simplefilter("ignore")
-        e1 = sa.create_engine("sqlite://")
-        e2 = sa.create_engine("sqlite://")
+        e1 = _engine()
+        e2 = _engine()
         md = sa.MetaData()
         try:
             pt, t = _build(tbl, md)
@@ -640,20 +788,41 @@ def _table_impl(c):
         out["created"] = {
             "cols": [[col.name, d.type_compiler_instance.process(col.type), bool(col.nullable),
                       None if col.server_default is None else ddlc.get_column_default_string(col)] for col in t.columns],
+            "ix": sorted([[ix.name, [c.name for c in ix.columns], bool(ix.unique),
+                           None if ix.dialect_options["sqlite"]["where"] is None else
+                           ddlc.sql_compiler.process(ix.dialect_options["sqlite"]["where"], include_table=False, literal_binds=True)]
+                          for ix in t.indexes], key=lambda x: json.dumps(x)),
         }
         try:
-            out["r1"] = _snapshot(sa.inspect(e1), tbl["name"], d)
+            out["r1"] = _snapshot(sa.inspect(e1), tbl["name"], d, sch)
         except Exception as ex:
             out["err"] = ["reflect", type(ex).__name__, str(ex)[:200]]
             return [0, S(json.dumps(out))]
         try:
             m2 = sa.MetaData()
-            sa.Table(tbl["parent"]["name"], m2, autoload_with=e1)
-            sa.Table(tbl["name"], m2, autoload_with=e1)
+            sa.Table(tbl["parent"]["name"], m2, schema=sch, autoload_with=e1)
+            sa.Table(tbl["name"], m2, schema=sch, autoload_with=e1)
             m2.create_all(e2)
-            out["r2"] = _snapshot(sa.inspect(e2), tbl["name"], d)
+            out["r2"] = _snapshot(sa.inspect(e2), tbl["name"], d, sch)
         except Exception as ex:
             out["err"] = ["recreate", type(ex).__name__, str(ex)[:200]]
+            return [0, S(json.dumps(out))]
+        # data probe: a row the original table accepts must be accepted by the re-created one
+        import sqlite3
+
+        sql = "INSERT INTO %s (%s) VALUES (%s)" % (prep.format_table(t), ", ".join(prep.quote(c["n"]) for c in tbl["cols"]),
+                                                  ", ".join("?" for _ in tbl["cols"]))
+        with e1.connect() as c1, e2.connect() as c2:
+            for row in tbl.get("rows", []):
+                try:
+                    c1.exec_driver_sql(sql, tuple(row))
+                except sa.exc.DBAPIError:
+                    continue
+                try:
+                    c2.exec_driver_sql(sql, tuple(row))
+                except sa.exc.DBAPIError as ex:
+                    out["probe"] = [row, str(ex.orig)[:160]]
+                    break
     return [0, S(json.dumps(out))]
 
 
@@ -774,10 +943,16 @@ def _table_oracle(c, obs):
             k = "-"
             if got[asp] == known[asp]:
                 k = _which(tbl, o["bare"], asp) or "-"
+            elif asp == "uq" and any(re.search(r"(?i)unique\s*\(", x) for x in [tbl["name"], tbl["pkname"] or ""] + [c["n"] for c in tbl["cols"]]
+                                     + [u[0] or "" for u in tbl["uq"]] + [f["name"] or "" for f in tbl["fk"]] + tbl["parent"]["pk"] + [tbl["parent"]["name"]]):
+                k = "C15-unique-pattern-matches-inside-identifier"
             return "ASPECT=%s known=%s :: created %s reflected %s" % (asp, k, json.dumps(ideal[asp]), json.dumps(got[asp]))
-    want_ix = sorted([[n, cc, bool(u)] for n, cc, u in tbl["ix"]], key=json.dumps)
+    want_ix = [x[:3] + [_ws(x[3])] for x in o["created"]["ix"]]
     if r1["ix"] != want_ix:
-        return "ASPECT=indexes known=- :: created %s reflected %s" % (json.dumps(want_ix), json.dumps(r1["ix"]))
+        # (.+) of partial_pred_re stops at a newline inside the predicate (a column name containing one)
+        cut = [x[:3] + [None if x[3] is None else _ws(x[3].split("\n")[0])] for x in o["created"]["ix"]]
+        k = "C15-partial-index-predicate-newline" if r1["ix"] == cut else "-"
+        return "ASPECT=indexes known=%s :: created %s reflected %s" % (k, json.dumps(want_ix), json.dumps(r1["ix"]))
     if o["err"]:
         k = "-"
         if o["err"][1] in ("ArgumentError", "NoReferencedTableError", "NoReferencedColumnError", "InvalidRequestError") and tbl["fk"] and any(
@@ -793,6 +968,9 @@ def _table_oracle(c, obs):
             k = ID_DQ
         return "ASPECT=fixpoint:%s known=%s :: first reflection %s, reflection of the re-created table %s" % (
             ",".join(diff), k, json.dumps({x: r1[x] for x in diff}), json.dumps({x: o["r2"][x] for x in diff}))
+    if o.get("probe"):
+        return "ASPECT=data-probe known=- :: the re-created table rejects the row %s which the original accepted: %s" % (
+            json.dumps(o["probe"][0]), o["probe"][1])
     return None
 
 
